@@ -5,29 +5,104 @@ package accountant
 import (
 	"context"
 
+	"github.com/bartossh/Computantis/src/spice"
 	"github.com/bartossh/Computantis/src/verifrt"
 )
 
-// VH_C06_chain: genesis -> W, then a chain of transfers with symbolic parties and amounts;
-// the real CalculateBalance (real walker goroutine) must return exactly the Z reference.
-func VH_C06_chain() {
-	n := 2
+func vhC06N() int {
+	if vhThorough() {
+		return 4
+	}
+	return 3
+}
+
+// vhBalanceSpec compares the real CalculateBalance with the Z reference over some current tip.
+func vhBalanceSpec(l *vhLedger, cp map[string]spice.Melange, q string, pfx string) {
+	tips := l.tips()
+	bal, err := l.ab.CalculateBalance(context.Background(), q)
+	// the result must equal f(t) for at least one current tip t
+	matches, allNeg, anyOvf := false, true, false
+	for _, t := range tips {
+		set := append(l.ancestors(t), t)
+		in, out := l.flows(q, set)
+		tot := verifrt.ZAdd(in, vhCpZ(cp, q))
+		neg := verifrt.ZLt(tot, out)
+		allNeg = verifrt.And(allNeg, neg)
+		anyOvf = verifrt.Or(anyOvf, verifrt.Or(verifrt.ZGe(tot, vhLimit()), verifrt.ZGe(out, vhLimit())))
+		if err == nil {
+			matches = verifrt.Or(matches, verifrt.ZEq(vhZ(bal.Spice), verifrt.ZSub(tot, out)))
+		} else {
+			matches = verifrt.Or(matches, verifrt.Or(neg, anyOvf))
+		}
+	}
+	if err != nil {
+		verifrt.Assert(matches, pfx+"/error-only-when-negative-or-overflow")
+		verifrt.Reach(pfx + "/err")
+		return
+	}
+	verifrt.Assert(matches, pfx+"/exact-for-some-tip")
+	verifrt.Assert(verifrt.Not(allNeg), pfx+"/negative-sum-is-an-error")
+	verifrt.Assert(vhCanon(bal.Spice), pfx+"/canonical")
+	verifrt.Assert(bal.WalletPublicAddress == q, pfx+"/address-echoed")
+	verifrt.Reach(pfx + "/ok")
+}
+
+// VH_C06_shapes: every DAG shape in the bound, symbolic parties and amounts, optional checkpoint,
+// the queried wallet symbolic among A..C.
+func VH_C06_shapes() {
+	verifrt.PermuteMaps(3)
+	l := vhShape(vhC06N())
+	cp := l.vhCheckpoint()
+	vhBalanceSpec(l, cp, vhWallet("query"), "C06/shapes")
+}
+
+// VH_C06_absent: an address that never appears has balance zero (or its checkpoint), never an error.
+func VH_C06_absent() {
+	l := vhShape(2)
+	bal, err := l.ab.CalculateBalance(context.Background(), "Z")
+	verifrt.Assert(err == nil, "C06/absent/no-error")
+	verifrt.Assert(bal.Spice.Empty(), "C06/absent/zero")
+	verifrt.Reach("C06/absent/end")
+}
+
+// VH_C06_readonly: the query changes nothing (vertex set, edges, index, checkpoint) and leaves the
+// book usable: a second query gives the same answer and a proposal still completes.
+func VH_C06_readonly() {
+	l := vhShape(2)
+	cp := l.vhCheckpoint()
+	q := vhWallet("query")
+	before := l.snapshot()
+	cpBefore := vhDBEntries(l.ab.verticesDB)
+	b1, e1 := l.ab.CalculateBalance(context.Background(), q)
+	after := l.snapshot()
+	cpAfter := vhDBEntries(l.ab.verticesDB)
+	verifrt.Assert(len(before.live) == len(after.live) && len(before.index) == len(after.index) && len(cpBefore) == len(cpAfter), "C06/readonly/nothing-added-or-removed")
+	for _, sv := range before.live {
+		a := after.find(sv.id)
+		verifrt.Assert(a != nil && a.v == sv.v && len(a.parents) == len(sv.parents), "C06/readonly/vertices-and-edges-unchanged")
+	}
+	for k, v := range cpBefore {
+		verifrt.Assert(cpAfter[k] == v, "C06/readonly/checkpoint-unchanged")
+	}
+	b2, e2 := l.ab.CalculateBalance(context.Background(), q)
+	verifrt.Assert((e1 == nil) == (e2 == nil), "C06/readonly/repeatable-verdict")
+	if e1 == nil && e2 == nil {
+		verifrt.Assert(b1.Spice == b2.Spice, "C06/readonly/repeatable-amount")
+	}
+	_ = cp
+	verifrt.Reach("C06/readonly/end")
+}
+
+// VH_C06_overflow: full-width amounts on a short chain.
+func VH_C06_overflow() {
 	l := vhGenesisLedger("A", vhAmount("supply"))
-	for i := 1; i <= n; i++ {
+	for i := 1; i <= 2; i++ {
 		v := vhTransfer(i, vhWallet("iss"+verifrt.Itoa(i)), vhWallet("rcv"+verifrt.Itoa(i)), vhAmount("amt"+verifrt.Itoa(i)), nil, vhPeerAddr, uint64(50+i))
 		l.add(v, i-1)
 	}
-	q := vhWallet("query")
-	tip := l.tips()[0]
-	set := append(l.ancestors(tip), tip)
-	in, out := l.flows(q, set)
-	bal, err := l.ab.CalculateBalance(context.Background(), q)
-	if err != nil {
-		verifrt.Assert(verifrt.Or(verifrt.ZLt(in, out), verifrt.Or(verifrt.ZGe(in, vhLimit()), verifrt.ZGe(out, vhLimit()))), "C06/chain/error-only-when-negative-or-overflow")
-		verifrt.Reach("C06/chain/err")
-		return
+	cp := map[string]spice.Melange{"A": vhAmount("cpA")}
+	if err := l.ab.saveFundsToStorage("A", cp["A"]); err != nil {
+		panic(err)
 	}
-	verifrt.Assert(verifrt.ZEq(vhZ(bal.Spice), verifrt.ZSub(in, out)), "C06/chain/exact")
-	verifrt.Assert(vhCanon(bal.Spice), "C06/chain/canonical")
-	verifrt.Reach("C06/chain/ok")
+	vhBalanceSpec(l, cp, vhWallet("query"), "C06/overflow")
 }
